@@ -9,15 +9,15 @@ HERE = os.path.dirname(os.path.dirname(os.path.abspath(__file__)))
 CLAIMED = {
     "C01": ("proof", "FFCx-owned index/layout mechanisms that carry the cell-kernel equality are under contract: E1 proves the "
             "accessor/flattening contracts from source for all inputs; E2 proves, for every corpus kernel and all inputs/iterations, "
-            "that every access stays in the UFCx extents. The numeric equality with the quadrature sum is not decided.",
+            "that every access stays in the UFCx extents. The numeric equality with the quadrature sum is checked, bounded, by E3 numeric: each corpus cell kernel on an affine simplex is executed on pseudo-random data and compared with an independent UFL/basix reference (never counted as proved).",
             "Undecided: UFL lowering, basix tabulation, C compiler, floating point. E2 is bounded over programs by the corpus. "
             "A-INT, A-FLOAT.", "sidecar contracts + VC generation from the Python AST (z3/cvc5); per-kernel SMT obligations over LNodes", "4 C01"),
     "C02": ("proof", "entity selection, '-' offsets of coordinate_dofs/w, table entity axis (E1, all inputs); extents of every facet/vertex "
-            "kernel of the corpus with entity_local_index[r] < #entities (E2).",
+            "kernel of the corpus with entity_local_index[r] < #entities (E2); E3 numeric (bounded) compares exterior/interior-facet simplex kernels, for every local facet (pair), with an independent reference integral over that facet of one/two explicit cells.",
             "Undecided: the numbers in geometry.py tables and the numeric value of the integral. Corpus-bounded over programs.",
             "sidecar contracts + VC generation from the Python AST (z3); per-kernel SMT obligations", "4 C02"),
     "C03": ("proof", "table permutation index selection quadrature_permutation[0|1] (E1); flag false implies no read of "
-            "quadrature_permutation in every corpus kernel (E2).",
+            "quadrature_permutation in every corpus kernel (E2); E3 numbering (bounded) executes interior-facet kernels for every pair of local vertex numberings of two 2D cells with the codes that make the points coincide and compares the physical results.",
             "Undecided: that the permutation codes mean what DOLFINx means (A-PERM); numeric invariance.",
             "sidecar contracts + VC generation (z3); per-kernel read-set obligations", "4 C03"),
     "C04": ("proof", "A extents num_points*components*dofs for every corpus expression kernel (E2); descriptor fields against UFL (E3, bounded).",
@@ -25,7 +25,7 @@ CLAIMED = {
             "per-kernel SMT obligations; run-time descriptor contracts (bounded)", "4 C04"),
     "C05": ("proof", "w/c accessors add exactly the coefficient/constant offset (E1); in every corpus kernel the w reads that flow into A lie "
             "inside enabled coefficients' ranges computed from UFL, c reads inside sum of constant sizes (E2); enabled_coefficients / "
-            "original positions emitted as UFL gives them (E3, bounded).",
+            "original positions emitted as UFL gives them (E3, bounded); E3 numeric (bounded) packs w and c by the documented layout and compares with the reference integral.",
             "Undecided: UFL's reduced/enabled sets themselves. Corpus-bounded over programs.",
             "sidecar contracts + VC generation (z3); per-kernel def-use/read-set SMT obligations", "4 C05"),
     "C06": ("proof", "integral_data proved for lists of ANY length with the list algebra of pyvc/slist.py (length, per-type sortedness for an "
@@ -45,16 +45,16 @@ CLAIMED = {
             "argument type against the C99 naming scheme, complex literal form (exhaustive on the real formatter); merge_dtypes and "
             "_math_function simplifications (E1); conj/sum/product/division factorisation handlers as coefficient-wise identities on "
             "real UFL operands with symbolic complex values (E1, structurally bounded shapes); complex_mode switch (syntactic); slot "
-            "selection on corpus modules (bounded).",
-            "Numeric agreement of the four kernels and UFL's complex_mode lowering not decided; C99 naming as oracle.",
+            "selection on corpus modules (bounded); E2 type-sound obligation on every corpus kernel (no SCALAR value stored in REAL storage); E3 numeric (complex kernels vs a reference evaluated in complex arithmetic) and E3 metamorphic (real data: scalar types agree to the narrower precision), both bounded.",
+            "Numeric agreement is decided only on the corpus (bounded); UFL's complex_mode lowering is used by the reference too; C99 naming as oracle.",
             "exhaustive finite enumeration on the real formatter + VC generation from the Python AST (z3)", "4 C09"),
     "C10": ("proof", "tensor-product quadrature is the row-major product of the 1D rules (E1), tensor_shape under part=diagonal (E1), "
             "sum factorisation restricted to cell integrals (syntactic), full table = outer product of factor tables and blockmaps on "
-            "corpus IRs (bounded), extents/frame of every corpus kernel generated with sum_factorization=True and part=diagonal (E2).",
-            "Equality of the tensors under the options is numeric and not decided; F14 (RuntimeError when sum factorisation does not apply) "
+            "corpus IRs (bounded), extents/frame of every corpus kernel generated with sum_factorization=True and part=diagonal (E2); E3 metamorphic (bounded): kernels generated with sum_factorization on/off and part=diagonal/full are executed on identical pseudo-random non-affine data and compared.",
+            "Equality of the tensors under the options is decided only on the corpus (bounded); F14 (RuntimeError when sum factorisation does not apply) "
             "is not checked.", "VC generation (z3) + per-kernel SMT obligations + run-time IR invariants (bounded)", "4 C10"),
     "C11": ("proof", "each integral of a group keeps its own degree/scheme (E1 fragment of _analyze_form); every contribution to A of every "
-            "corpus kernel depends on tables of its own quadrature rule (E2 rule-consistency).",
+            "corpus kernel depends on tables of its own quadrature rule (E2 rule-consistency); E3 numeric (bounded) compares multi-rule corpus kernels with a reference that integrates each integrand with its own rule.",
             "Exactness of basix rules and UFL degree estimation external; corpus-bounded over programs.",
             "fragment contracts + VC generation (z3); per-kernel def-use obligations", "4 C11"),
     "C12": ("other", "every syntactic source of seed-/history-dependence (set construction, id, hash, ufl_id, count, module-level mutable "
